@@ -594,11 +594,20 @@ func (c *Compiler) applyUsesToNode(mod, nod, use parse.Node, parentStatus schema
 		refinedNodes = append(refinedNodes, newKid)
 	}
 
+	// The paths of refine and augment name schema nodes: a typedef or
+	// grouping of the grouping's body that has the same name is not one.
+	targetNodes := make([]parse.Node, 0, len(refinedNodes))
+	for _, n := range refinedNodes {
+		if t := n.Type(); t != parse.NodeTypedef && t != parse.NodeGrouping {
+			targetNodes = append(targetNodes, n)
+		}
+	}
+
 	for _, r := range use.ChildrenByType(parse.NodeRefine) {
 
 		applyToPath := r.ArgDescendantSchema()
 		applyToNode := c.getDataDescendant(
-			use, refinedNodes, applyToPath, assertRef)
+			use, targetNodes, applyToPath, assertRef)
 		if applyToNode == nil {
 			c.error(r, fmt.Errorf("Invalid path: %s", xmlPathString(applyToPath)))
 		}
@@ -629,7 +638,7 @@ func (c *Compiler) applyUsesToNode(mod, nod, use parse.Node, parentStatus schema
 					a.Argument().String()))
 		}
 		applyToPath := a.ArgDescendantSchema()
-		c.applyAugment(a, refinedNodes, applyToPath, status)
+		c.applyAugment(a, targetNodes, applyToPath, status)
 	}
 	for _, a := range use.ChildrenByType(parse.NodeOpdAugment) {
 		if _, ok := a.Argument().(*parse.DescendantSchemaArg); !ok {
@@ -638,7 +647,7 @@ func (c *Compiler) applyUsesToNode(mod, nod, use parse.Node, parentStatus schema
 					a.Argument().String()))
 		}
 		applyToPath := a.ArgDescendantSchema()
-		c.applyAugment(a, refinedNodes, applyToPath, status)
+		c.applyAugment(a, targetNodes, applyToPath, status)
 	}
 
 	nod.ReplaceChild(use, refinedNodes...)
